@@ -134,30 +134,97 @@ def fam_c01_isvalid(man):
     return out
 
 
-VC_SCRIPT = ('  try any_goals (exact ⇓ _ => ⌜True⌝)\n  all_goals (try (mleave; done))\n  all_goals (try (simp; done))\n'
+VC_SCRIPT = ('  try any_goals (exact ⇓ _ => ⌜True⌝)\n  all_goals (try (mleave; done))\n'
              '  all_goals (clear_jps; py_vc)\n')
+
+# hand-proved triples (lean/Lemmas/Contracts.lean) used instead of unfolding the function
+CONTRACTS = {
+    'stdnum.luhn:validate': 'Py.Contracts.luhn_validate_spec',
+    'stdnum.luhn:checksum': 'Py.Contracts.luhn_checksum_spec',
+    'stdnum.luhn:calc_check_digit': 'Py.Contracts.luhn_calc_check_digit_spec',
+    'stdnum.verhoeff:validate': 'Py.Contracts.verhoeff_validate_spec',
+    'stdnum.iso7064.mod_11_10:validate': 'Py.Contracts.mod_11_10_validate_spec',
+    'stdnum.iso7064.mod_37_2:validate': 'Py.Contracts.mod_37_2_validate_spec',
+    'stdnum.iso7064.mod_37_36:validate': 'Py.Contracts.mod_37_36_validate_spec',
+    'stdnum.iso7064.mod_97_10:validate': 'Py.Contracts.mod_97_10_validate_spec',
+    'stdnum.iso7064.mod_97_10:checksum': 'Py.Contracts.mod_97_10_checksum_spec',
+    'stdnum.iso7064.mod_97_10:calc_check_digits': 'Py.Contracts.mod_97_10_calc_check_digits_spec',
+    'stdnum.iso7064.mod_97_10:_to_base10': 'Py.Contracts.to_base10_spec',
+}
+
+
+def _is_candidate(F, mod):
+    v = F.get(mod + ':validate')
+    return bool(v and v['ok'] and v['rtype'] == 'str' and v['params'] and v['ptypes'][0] == 'str')
+
+
+def contract_closure(F, key):
+    """functions to unfold, hand-proved contracts to use, and `validate` functions of other modules whose own
+    generated contract is used as a spec (so nothing is proved twice and proofs stay small)"""
+    mod = key.split(':')[0]
+    unfold, specs, callees = [], [], []
+    seen, st = set(), [key]
+    while st:
+        k = st.pop()
+        if k in seen or k not in F:
+            continue
+        seen.add(k)
+        if k in CONTRACTS:
+            specs.append(CONTRACTS[k])
+            continue
+        if k != key and k.endswith(':validate') and k.split(':')[0] != mod and _is_candidate(F, k.split(':')[0]):
+            callees.append(k)
+            continue
+        unfold.append(k)
+        for c in F[k].get('calls', []):
+            if c.startswith('stdnum.util:'):
+                continue
+            st.append(c)
+    return unfold, specs, callees
 
 
 def _contract(man, fam, post, post_name):
     F = man['functions']
     out = []
+    cand_ok = {}
+
+    def full_ok(mod, depth=0):
+        """every function that has to be unfolded (here or in a callee's own proof) is translated"""
+        if mod not in cand_ok:
+            cand_ok[mod] = False
+            unfold, _, callees = contract_closure(F, mod + ':validate')
+            cand_ok[mod] = all(F[c]['ok'] for c in unfold) and all(full_ok(c.split(':')[0]) for c in callees)
+        return cand_ok[mod]
+
     for mod, m in sorted(man['modules'].items()):
-        v = F.get(mod + ':validate')
-        if not v or not v['ok'] or v['rtype'] != 'str' or not v['params'] or v['ptypes'][0] != 'str':
+        if not _is_candidate(F, mod) or not full_ok(mod):
             continue
-        cl = closure(F, mod + ':validate')
-        if not all(F[c]['ok'] for c in cl):
-            continue
+        v = F[mod + ':validate']
+        unfold, specs, callees = contract_closure(F, mod + ':validate')
         ns = m['ns']
         today = '(today__ : Date) ' if v['today'] else ''
         bs = ' '.join('(%s : %s)' % (mangle(p) + "'", lean_type(t)) for p, t in zip(v['params'], v['ptypes']))
         args = (' today__' if v['today'] else '') + ''.join(' ' + mangle(p) + "'" for p in v['params'])
-        imports = sorted({'Gen.' + man['modules'][c.split(':')[0]]['ns'] for c in cl}) + ['Lemmas.Vc']
+        imports = {'Gen.' + man['modules'][c.split(':')[0]]['ns'] for c in unfold + callees} | {'Gen.' + ns, 'Lemmas.Contracts'}
+        pre = ''
+        for c in sorted(callees):
+            cv = F[c]
+            cns = man['modules'][c.split(':')[0]]['ns']
+            imports.add('Props.Auto.%s_%s' % (fam, cns))
+            cbs = ('(today__ : Date) ' if cv['today'] else '') + ' '.join(
+                '(%s : %s)' % (mangle(p) + "'", lean_type(t)) for p, t in zip(cv['params'], cv['ptypes']))
+            cargs = (' today__' if cv['today'] else '') + ''.join(' ' + mangle(p) + "'" for p in cv['params'])
+            sname = 'Props.Auto.%s.%s.spec_%s_validate' % (fam, ns, cns)
+            pre += ('theorem %s %s :\n    ⦃⌜True⌝⦄ %s%s ⦃post⟨fun v => ⌜%s⌝, fun e => ⌜e.isValidation = true⌝⟩⦄ :=\n'
+                    '  Py.triple_of_holds _ _ _ (Props.Auto.%s.%s.%s%s)\n\n' % (
+                        sname, cbs, cv['lean'], cargs, post, fam, cns, post_name, cargs))
+            specs = specs + [sname]
         name = 'Props.Auto.%s.%s.%s' % (fam, ns, post_name)
-        src = ('theorem %s %s%s :\n    Py.Holds (%s%s) (fun v => %s) (fun e => e.isValidation = true) := by\n'
-               '  apply Py.holds_of_triple\n  mvcgen [%s]\n%s' % (
-                   name, today, bs, v['lean'], args, post, ', '.join(F[c]['lean'] for c in cl), VC_SCRIPT))
-        out.append({'name': name, 'ns': ns, 'covers': mod, 'family': fam, 'src': src, 'imports': imports,
+        src = pre + ('theorem %s %s%s :\n    Py.Holds (%s%s) (fun v => %s) (fun e => e.isValidation = true) := by\n'
+                     '  apply Py.holds_of_triple\n  mvcgen [%s]\n%s' % (
+                         name, today, bs, v['lean'], args, post,
+                         ', '.join([F[c]['lean'] for c in unfold] + sorted(set(specs)) + ['Py.stateT_pure_apply', 'Py.earlyReturn_eq']), VC_SCRIPT))
+        out.append({'name': name, 'ns': ns, 'covers': mod, 'family': fam, 'src': src, 'imports': sorted(imports),
                     'prelude': 'open Py Std.Do\nset_option mvcgen.warning false\npy_setup\n'})
     return out
 
